@@ -207,6 +207,28 @@ M['S21_table_capped_at_64_entries'] = [(LSF, '''                    me.data.push
                     me.data.push(LeapSecond {''')]
 M['S22_timestamp_through_u32'] = [(LSF, '''                        timestamp_tai_s: (timestamp_tai_s as f64),''', '''                        timestamp_tai_s: (timestamp_tai_s as u32 as f64), // NTP timestamps are 32 bit''')]
 
+M['S23_table_capped_at_256_entries'] = [(LSF, '''                    me.data.push(LeapSecond {''', '''                    if me.data.len() == 256 {
+                        // a u8 offset cannot count more insertions than this
+                        break;
+                    }
+                    me.data.push(LeapSecond {''')]
+M['S24_empty_list_falls_back_to_builtin'] = [(LSF, '''        Ok(me)
+    }
+}
+
+#[cfg(feature = "python")]''', '''        if me.data.is_empty() {
+            // nothing usable in the file: answer like the built-in table rather than "no leap second ever"
+            me.data = crate::leap_seconds::LatestLeapSeconds::default()
+                .filter(|ls| ls.announced_by_iers)
+                .collect();
+        }
+        Ok(me)
+    }
+}
+
+#[cfg(feature = "python")]''')]
+M['S25_offset_through_i8'] = [(LSF, '''                        delta_at: (delta_at as f64),''', '''                        delta_at: (delta_at as i8 as f64), // signed: negative leap seconds are possible''')]
+
 # ---- refactors: each preserves the clause; the check must stay silent ---------------------
 R = {}
 R['R1_bufreader_linewise'] = [(LSF, READ_BLOCK, '''        use std::io::BufRead;
